@@ -68,6 +68,7 @@ def main(argv):
     backends = {}
     samples = []
     vacuous = []
+    unreached = []
     unit_status = {}
     for r in results:
         unit_status[r["unit"]] = {"status": r["status"], "reason": r["reason"][:500], "paths": r["paths"],
@@ -97,7 +98,8 @@ def main(argv):
                 undecided.append((full, o["verdict"], o["reason"] or r["reason"]))
         for cname, ok in r["covers"].items():
             if not ok and r["status"] == "ok":
-                vacuous.append(f"{r['unit']}::cover.{cname}")
+                # only precondition covers are vacuity guards; path covers depend on the code's shape
+                (vacuous if cname.startswith("pre") else unreached).append(f"{r['unit']}::cover.{cname}")
     for full in sorted(baseline - seen):
         unit_id = full.split("::")[0]
         why = unit_status.get(unit_id, {}).get("reason", "unit missing")
@@ -199,6 +201,7 @@ def main(argv):
         "solver_s": round(solver_s, 3),
         "functions_under_contract": list(functions.values()),
         "units": unit_status,
+        "path_covers_not_reached": unreached,
         "samples": samples or [{"note": "no obligation discharged in this run"}],
         "explanation": (
             "Deductive part: every obligation listed was generated from the current source of the functions under contract and "
